@@ -30,6 +30,7 @@ type incFile struct {
 	raw      string   // explicit content (overrides tag content)
 	incLast  bool     // write the include section after the other sections
 	extra    string   // extra text appended (e.g. a second 'node' section)
+	light    bool     // no routing section (the 5000+ graph cases: parsing a rule is the expensive part)
 }
 
 type incCase struct {
@@ -65,6 +66,9 @@ func (f *incFile) content(root string) string {
 		inc += "}\n"
 	}
 	body := fmt.Sprintf("node { '%s.1' '%s.2' }\nrouting { pname(%s) -> direct }\nmarker { k%s: %s }\n", f.tag, f.tag, f.tag, f.tag, f.tag)
+	if f.light {
+		body = fmt.Sprintf("node { '%s.1' '%s.2' }\nmarker { k%s: %s }\n", f.tag, f.tag, f.tag, f.tag)
+	}
 	if f.incLast {
 		return body + inc + f.extra
 	}
@@ -75,6 +79,7 @@ type inoWatch struct {
 	fd     int
 	paths  map[int32]string
 	byPath map[string]bool
+	buf    []byte
 }
 
 var procWatch *inoWatch
@@ -96,7 +101,10 @@ func (w *inoWatch) add(path string) error {
 }
 func (w *inoWatch) opened() map[string]bool {
 	out := map[string]bool{}
-	buf := make([]byte, 64*1024)
+	if w.buf == nil {
+		w.buf = make([]byte, 64*1024)
+	}
+	buf := w.buf
 	for {
 		n, err := syscall.Read(w.fd, buf)
 		if n <= 0 || err != nil {
@@ -313,6 +321,9 @@ func runIncCase(root string, c *incCase, inotifyOK *bool) []incOutcome {
 			want["include"] = append(want["include"], rs[0].Items...)
 		}
 		for name, items := range tagItems(tag) {
+			if f.light && name == "routing" {
+				continue
+			}
 			want[name] = append(want[name], items...)
 		}
 		if f.extra != "" { // the only extra used: a second node section
@@ -413,7 +424,7 @@ func mergeInChild(entry, chdir string, w *inoWatch, inotifyOK bool) mergeResult 
 		return ""
 	}
 	start := time.Now()
-	tick := time.NewTicker(500 * time.Microsecond)
+	tick := time.NewTicker(2 * time.Millisecond)
 	defer tick.Stop()
 	var got rd
 loop:
@@ -518,7 +529,7 @@ func buildIncCases(root string, thorough bool) (cases []*incCase, nGraphs int) {
 					for _, t := range inc[n] {
 						specs = append(specs, t+".dae")
 					}
-					c.files = append(c.files, incFile{rel: "conf/" + n + ".dae", tag: tagOf[n], includes: specs, incLast: n == "b"})
+					c.files = append(c.files, incFile{rel: "conf/" + n + ".dae", tag: tagOf[n], includes: specs, incLast: n == "b", light: len(cases)%64 != 0})
 					lab = append(lab, n+"->["+strings.Join(inc[n], ",")+"]")
 				}
 				c.files = append(c.files, decoys...)
@@ -578,7 +589,7 @@ func buildIncCases(root string, thorough bool) (cases []*incCase, nGraphs int) {
 		}
 		c := &incCase{entry: "conf/a.dae"}
 		for _, n := range names {
-			c.files = append(c.files, incFile{rel: "conf/" + n + ".dae", tag: tagOf[n], includes: specs[n], incLast: n == "b"})
+			c.files = append(c.files, incFile{rel: "conf/" + n + ".dae", tag: tagOf[n], includes: specs[n], incLast: n == "b", light: true})
 		}
 		c.files = append(c.files, incFile{rel: "conf/sub", isDir: true})
 		c.files = append(c.files, decoys...)
